@@ -349,5 +349,8 @@ func runR_C18(c *Ctx) {
 	hashCoreRules(c, false)
 	sortLessRules(c)
 	compareCoreRules(c)
+	// without the leaf-semantics rule: Equal's nil-blindness for []byte components is masked in mem by the hash, which
+	// separates nil from empty (checked on the real binary: both are evaluated, both results are right)
+	equalCoreRules(c, false)
 	c.Rep.floor("R15", 30)
 }
